@@ -136,6 +136,43 @@ def isi_shard(T, tier):
     return tally
 
 
+def isi3d_shard(T):
+    """rasters with two leading population dimensions (2 x 2 trains): the flattening/reshaping of the result must keep every
+    train's intervals with that train"""
+    tally = Tally()
+    dt = 0.5
+    for bits in itertools.product((0, 1), repeat=4 * T):
+        trains = [bits[i * T:(i + 1) * T] for i in range(4)]
+        sp = torch.tensor(trains, dtype=torch.bool).reshape(2, 2, T)
+        for time_first in (False, True):
+            tally.add("evaluations")
+            arg = sp.permute(2, 0, 1).contiguous() if time_first else sp
+            case = {"T": T, "dt": dt, "trains_2x2": [list(t) for t in trains], "time_first": time_first}
+            try:
+                out = inferno.isi(arg, dt, time_first=time_first)
+            except Exception as ex:
+                tally.violation(f"isi3d:exception:{type(ex).__name__}", case, repr(ex))
+                continue
+            if time_first:
+                out = out.permute(1, 2, 0)
+            C = max(sum(t) for t in trains)
+            if tuple(out.shape) != (2, 2, max(C - 1, 0)):
+                tally.violation("isi3d:shape", case, f"shape {tuple(out.shape)} expected (2,2,{max(C - 1, 0)})")
+                continue
+            for i, tr in enumerate(trains):
+                times = [k * dt for k, v in enumerate(tr) if v]
+                row = out[i // 2, i % 2].tolist()
+                n = max(len(times) - 1, 0)
+                exp = [times[k + 1] - times[k] for k in range(n)]
+                if row[:n] != exp or any(v == v for v in row[n:]):
+                    tally.violation("isi3d:intervals", case, f"train {i}: intervals {row}, expected {exp} then NaN padding", exp, row)
+                    break
+            if C >= 2:
+                tally.mark("nontrivial", ("isi3d", T, bits, time_first))
+    tally.sample({"part": "isi 2x2 trains", "T": T})
+    return tally
+
+
 def vp_ref(a, b, cost):
     """brute force over order-preserving partial matchings"""
     best = math.inf
@@ -340,6 +377,8 @@ def run(rep):
     jobs = [(interp_shard, (rep.tier,)), (vp_shard, (rep.tier,)), (dist_shard, (rep.tier,))]
     for T in ((1, 2, 3, 4, 5, 6) if quick else (1, 2, 3, 4, 5, 6, 7)):
         jobs.append((isi_shard, (T, rep.tier)))
+    for T in ((1, 2, 3) if quick else (1, 2, 3, 4)):
+        jobs.append((isi3d_shard, (T,)))
     tally = run_shards(jobs, seed=rep.seed)
     rep.tally.merge(tally)
     rep.assumptions += [
